@@ -6,6 +6,8 @@ CONSTANTS
   Values <- McValues
   Messages <- McMessages
   Servers <- McServers
+  Forms <- McForms
+  MaxServes = 1
   Deviation = "none"
-INVARIANTS TypeOk SuccessIff EnvelopeWellFormed ErrorOwnCode UnmarshalableIsError ClientNeverConfuses
+INVARIANTS TypeOk SuccessIff EnvelopeWellFormed ErrorOwnCode UnmarshalableIsError ClientNeverConfuses ResponseOfCurrentValue AnswerIsCurrent
 CHECK_DEADLOCK FALSE
